@@ -179,6 +179,7 @@ def run(ctx):
     rm.interception_flag_clause(ctx, res, 'C03', 'C03.g')
     rm.extractor_runs_idle_clause(ctx, res, 'C03', 'C03.i')
     rm.api_leaves_replay_state_clause(ctx, res, 'C03', 'C03.j')
+    rm.ordinals_only_when_intercepted_clause(ctx, res, 'C03', 'C03.k')
     # ---- C03.h the helpers that build the operation entry and the keys keep no state between calls
     ch = res.clause('C03.h', 'R-PROV', 'capture helpers (exception form, key builders) are stateless', floor=2)
     helpers = [roles.key_builders['output'], roles.key_builders['input']]
